@@ -170,6 +170,83 @@ macro_rules! with_keyset {
     };
 }
 
+// ================================================================== short inputs (0..=52 bytes)
+// The fully unstructured harnesses c23_u_* (every byte and the length symbolic) are kept above but
+// are NOT registered: with a symbolic version and length the three version paths, the NTPv5 header
+// error merges and the field loop on symbolic offsets add up to 3.0M SSA steps (535 s of symbolic
+// execution, solver out of memory at 12 GB; measured). The short inputs are covered by layouts
+// instead: length and the first header byte concrete, NTPv5 control bytes concrete (valid and each
+// kind of invalid), everything else symbolic.
+fn short<const N: usize, C: CipherProvider + ?Sized>(b0: u8, v5ctl: Option<(u8, u8, u8)>, len: usize, c: &C) -> u8 {
+    let mut buf: [u8; N] = kani::any();
+    assert!(len < N);
+    buf[0] = b0;
+    if let Some((ts, f0, f1)) = v5ctl {
+        buf[12] = ts;
+        buf[14] = f0;
+        buf[15] = f1;
+    }
+    let r = decode(&buf[..len], c);
+    let code = r.code();
+    std::mem::forget(r);
+    code
+}
+with_nocipher!(c23_s_v3_n, 5, |c| {
+    let a = short::<56, _>(0x1B, None, 48, c);
+    let m = short::<56, _>(0xDC, None, 52, c);
+    assert!(a == ACC && m == ACC, "v3 header (+ 4-byte MAC) accepted");
+    kani::cover!(a == ACC, "reached");
+});
+with_nocipher!(c23_s_v4_n, 5, |c| {
+    let a = short::<56, _>(V4C, None, 48, c);
+    let m = short::<56, _>(V4S, None, 52, c);
+    assert!(a == ACC && m == ACC, "v4 header (+ crypto-NAK sized MAC) accepted");
+    kani::cover!(a == ACC, "reached");
+});
+with_nocipher!(c23_s_short_n, 5, |c| {
+    let e = short::<56, _>(V4C, None, 0, c);
+    let s3 = short::<56, _>(0x1B, None, 47, c);
+    assert!(e == REJ && s3 == REJ, "empty input and a 47-byte v3 header are refused");
+    kani::cover!(e == REJ, "reached");
+});
+with_nocipher!(c23_s_short45_n, 5, |c| {
+    let s4 = short::<56, _>(V4C, None, 47, c);
+    let s5 = short::<56, _>(V5Q, Some((0, 0, 1)), 47, c);
+    assert!(s4 == REJ && s5 == REJ, "47-byte v4/v5 headers are refused");
+    kani::cover!(s4 == REJ, "reached");
+});
+with_nocipher!(c23_s_mac_short_n, 5, |c| {
+    let m1 = short::<56, _>(0x1B, None, 49, c);
+    let m3 = short::<56, _>(V4C, None, 51, c);
+    assert!(m1 == REJ && m3 == REJ, "1..3 byte MAC refused");
+    kani::cover!(m1 == REJ, "reached");
+});
+with_nocipher!(c23_s_version_n, 5, |c| {
+    let v0 = short::<56, _>(0x03, None, 48, c);
+    let v2 = short::<56, _>(0x13, None, 52, c);
+    let v7 = short::<56, _>(0x3B, None, 48, c);
+    assert!(v0 == REJ && v2 == REJ && v7 == REJ, "versions other than 3, 4, 5 are refused");
+    kani::cover!(v0 == REJ, "reached");
+});
+with_nocipher!(c23_s_v5_n, 5, |c| {
+    let h = short::<56, _>(V5Q, Some((0, 0, 1)), 48, c);
+    assert!(h == REJ, "a v5 header without draft identification is refused");
+    kani::cover!(h == REJ, "reached");
+});
+with_nocipher!(c23_s_v5_badmode_n, 5, |c| {
+    let x = short::<56, _>(0x28, Some((0, 0, 1)), 48, c);
+    let y = short::<56, _>(0x2F, Some((0, 0, 1)), 52, c);
+    assert!(x == REJ && y == REJ, "v5 modes other than 3/4 are refused");
+    kani::cover!(x == REJ, "reached");
+});
+with_nocipher!(c23_s_v5_badctl_n, 5, |c| {
+    let ts = short::<56, _>(V5Q, Some((4, 0, 1)), 48, c);
+    let f0 = short::<56, _>(V5R, Some((0, 1, 0)), 48, c);
+    let f1 = short::<56, _>(V5R, Some((3, 0, 8)), 48, c);
+    assert!(ts == REJ && f0 == REJ && f1 == REJ, "unknown timescale / reserved flag bits are refused");
+    kani::cover!(ts == REJ, "reached");
+});
+
 // ================================================================== NTPv4, no keys
 // RFC 7822: fields are parsed only while more than 24 bytes remain; the rest (4..=24 bytes) is a MAC.
 with_nocipher!(c23_t_v4_ok_n, 5, |c| {
